@@ -1,5 +1,6 @@
 import Pathrs.Proofs.Runs
 import Pathrs.Proofs.KProc
+import Pathrs.Proofs.KProcReopen
 
 /-!
 # C06 — procfs calls return only genuine procfs objects
@@ -248,3 +249,24 @@ theorem C06_emulated_same_mount {w : PWorld} (hw : PWF w) (path : Bytes) (hp : p
     (h : Prog.prun w (Procfs.opathResolve w.base path oflags rflags) = .ok r) : w.mnt r = w.mnt w.base :=
   opathResolve_same_mnt hw path hp hdd oflags rflags hfl r h
 
+
+open KProc KProcOpen KProcReopen PWorld in
+/-- **`ProcfsHandle::open` on any procfs tree with any mount layout** (handle on the tree's base directory, not masked,
+emulated resolver; `Proofs/KProcOpen.lean`): the call computes the two confined lookups of its specification
+(`openSpec`: base directory, then the sub-path without following a final link), and an object it returns lies on the
+handle's own mount — never on anything that was mounted over a component. -/
+theorem C06_open_on_mounts {w : PWorld} (hw : PWF w) (env : Env) (base : Procfs.Base) (sub : Bytes) (oflags fuel : Nat)
+    (hprobe : Prog.prun w (Procfs.intoPath base w.base) = .ok (basePath base))
+    (hsub : sub ≠ []) (hdd : Path.dotdot ∉ Path.rawComponents sub)
+    (hcf : (hasAny oflags (O_CREAT ||| O_EXCL) || hasAll oflags O_TMPFILE) = false) :
+    Prog.prun w (Procfs.openH env (fuel + 1) (handleOf w) base sub oflags) = toOutP (openSpec w (basePath base) sub oflags) ∧
+    ∀ o, Prog.prun w (Procfs.openH env (fuel + 1) (handleOf w) base sub oflags) = .ok o → w.mnt o = w.mnt w.base := by
+  have hrun := prun_openH hw env base sub oflags fuel hprobe hsub hdd hcf
+  refine ⟨hrun, fun o ho => ?_⟩
+  rw [hrun] at ho
+  generalize hs : openSpec w (basePath base) sub oflags = x at ho
+  cases x with
+  | error e => cases ho
+  | ok d =>
+    cases ho
+    exact (openSpec_nonneg hw base sub oflags hdd _ hs).2
